@@ -4,6 +4,7 @@
   pattern of bucket collisions.
 -/
 import Stevia.Proofs.HashSetState
+import Stevia.Proofs.ExecInv
 
 namespace Stevia.C02
 open Stevia
@@ -26,6 +27,13 @@ theorem refines_from (hash : γ → Nat) (s : HSet γ) (h : s.Inv hash) (m : Lis
     ∃ s', s.setRun hash ops = .ok (s', (BSet.run s.cap m ops).2) ∧ s'.Inv hash ∧
       s'.members.Perm (BSet.run s.cap m ops).1 :=
   HSet.setRun_refines h m hm ops
+
+/-- … in particular from every state reachable from `initialize` by any sequence of inserts and removes. -/
+theorem refines_from_reachable (hash : γ → Nat) (s : HSet γ) (h : HSet.Reach hash s) (ops : List (SetOp γ)) :
+    ∃ s', s.setRun hash ops = .ok (s', (BSet.run s.cap s.members ops).2) ∧
+      s'.members.Perm (BSet.run s.cap s.members ops).1 := by
+  obtain ⟨s', h1, _, h3⟩ := HSet.setRun_refines (HSet.reach_inv h) s.members (List.Perm.refl _) ops
+  exact ⟨s', h1, h3⟩
 
 /-- `insert` returns true exactly when the value was absent and the set not full;
     `remove` returns true exactly when it was present and removes only that value;
